@@ -67,8 +67,8 @@ def check_ace_against(ctx, case, ace, want: dict, where: str) -> list:
         if got != exp:
             problems.append(f"{side} set {intervals.encode(got) if got is not None else None} != "
                             f"{intervals.encode(exp) if exp is not None else None}")
-    if sorted(ace.option.flags) != sorted(want["flags"]):
-        problems.append(f"flags {ace.option.flags} != {list(want['flags'])}")
+    if list(ace.option.flags) != list(want["flags"]):
+        problems.append(f"option tokens {ace.option.flags} != {list(want['flags'])} (order is part of keyword/value options)")
     if sorted(ace.option.logs) != sorted(want["logs"]):
         problems.append(f"logs {ace.option.logs} != {list(want['logs'])}")
     return [f"{where}: {p}" for p in problems]
@@ -96,6 +96,8 @@ def execute(ctx, case: dict) -> None:
         problems.append(f"rendered line {line!r} is not readable Cisco syntax: {ex}")
     else:
         ctx.count("rendered_line_reread")
+        if again["opts"] != want["opts"]:
+            problems.append(f"rendered line {line!r} carries option tokens {list(again['opts'])}, input {list(want['opts'])}")
         if reader.meaning_full(again) != reader.meaning_full(want):
             problems.append(f"rendered line {line!r} means {reader.meaning_full(again)}, input means "
                             f"{reader.meaning_full(want)}")
